@@ -23,7 +23,13 @@ prop("C18", "exploration",
      "table of 8 (the string sweep runs all 8 per length), native fuzz targets derive it from a hash of the input. User-"
      "authentication requests (real tube) realise the pattern as up to 24 separate writes, each delivered and read before the next, "
      "and as reading only after the peer's close was processed. Frame codecs (one datagram = one byte slice) and key parsers "
-     "(strings / PEM blocks) have no reader and therefore no delivery dimension. Non-trivial (A) = some field at or just past a framing limit, "
+     "(strings / PEM blocks) have no reader and therefore no delivery dimension. (D) concurrent dimension of the frame codecs "
+     "(the tubes encode and decode frames on many goroutines of one process at once): 2..8 goroutines each own 1..4 generated "
+     "data / initiate frames (mostly 0..48 data bytes, one in four with the lengths of (A)) and, after a common start barrier, "
+     "encode and decode THEIR OWN frames 100 / 400 / 1500 times; every decoded frame must equal the goroutine's own frame on "
+     "every field; a deviating frame is round-tripped once more alone to tell a sequential defect (roundtrip-mismatch) from "
+     "interference between encoders (signature C18:concurrent-encoders-interfere:<codec>:<field>); run plain and under the race "
+     "detector; non-trivial = >= 2 goroutines with >= 2 distinct tube ids. Non-trivial (A) = some field at or just past a framing limit, "
      "or an enum value without a named constant; (B) = an accepted input that differs from its own re-encoding; distinct by case "
      "hash. The exhaustive flag refers to the enumerated sweeps only. User-authentication requests travel over a real reliable "
      "tube (muxer pair on an in-memory network inside a synctest bubble) because GetInitMsg demands one. Thorough tier adds native "
@@ -50,7 +56,9 @@ prop("C18", "exploration",
       dict(name="portforwarding", pkg="portforwarding", run="^TestVerifC18", shards=dict(quick=8, thorough=16), thorough_scale=100),
       dict(name="userauth", pkg="userauth", run="^TestVerifC18", shards=dict(quick=8, thorough=16), thorough_scale=30),
       dict(name="keys", pkg="keys", run="^TestVerifC18", shards=dict(quick=4, thorough=8), thorough_scale=50),
-      dict(name="tubes", pkg="tubes", run="^TestVerifC18", shards=dict(quick=8, thorough=16), thorough_scale=100),
+      dict(name="tubes", pkg="tubes", run="^TestVerifC18Frame(EncDec|FlagSweep|DecEncDec)$", shards=dict(quick=8, thorough=16), thorough_scale=100),
+      dict(name="tubes-concurrent", pkg="tubes", run="^TestVerifC18FrameConcurrent$", shards=dict(quick=4, thorough=8), thorough_scale=20),
+      dict(name="tubes-concurrent-race", pkg="tubes", race=True, run="^TestVerifC18FrameConcurrent$", shards=dict(quick=4, thorough=8), thorough_scale=10),
       dict(name="fuzz-certs", kind="fuzz", pkg="certs", targets=["FuzzVerifC18Certificate"], fuzztime=45, thorough_only=True),
       dict(name="fuzz-authgrants", kind="fuzz", pkg="authgrants", targets=["FuzzVerifC18AgMessage"], fuzztime=45, thorough_only=True),
       dict(name="fuzz-codex", kind="fuzz", pkg="codex", targets=["FuzzVerifC18ExecInit"], fuzztime=45, thorough_only=True),
@@ -63,7 +71,9 @@ prop("C18", "exploration",
           "length prefix shows up as a value or consumed-length mismatch; mutated encodings that the decoder accepts are "
           "re-encoded and decoded again and must be stable. Every decode from a reader is repeated with the same bytes delivered "
           "in generated pieces (one byte at a time, drawn chunk sizes, zero-byte reads, end-of-stream together with the last bytes) "
-          "and must give the same value and consume the same number of bytes.",
-     note="trusts rapid and field-by-field comparison written from the struct definitions; 4 GiB fields not exercised",
+          "and must give the same value and consume the same number of bytes. Several goroutines encoding and decoding tube frames of "
+          "their own at the same moment must each get their own frame back (also under the race detector).",
+     note="trusts rapid and field-by-field comparison written from the struct definitions; 4 GiB fields not exercised; the "
+          "interleavings of the concurrent frame test are those the Go scheduler produces, not enumerated",
      technique="property-based round-trip and decode-encode-decode testing (rapid) with small exhaustive sweeps; native fuzzing in the thorough tier",
      design="DESIGN.md section 4, C18")
